@@ -296,6 +296,10 @@ def havoc_set(ex, st, eff):
         if name in seen: return
         seen.add(name)
         if name.startswith('self.') or name == 'self':
+            # a receiver modelled as one record (self_type): its attributes are
+            # fields of the root `self`
+            if name.startswith('self.') and 'self' in st.env:
+                name = 'self'
             roots.add(name); return
         cur = st.env.get(name)
         if isinstance(cur, Ref):
